@@ -263,6 +263,9 @@ func handleLRem(params internal.HandlerFuncParams) ([]byte, error) {
 
 	removedCount := len(list)
 
+	// Remove from a copy: the stored list must stay as it is if the write is refused.
+	list = slices.Clone(list)
+
 	switch {
 	default:
 		// Count is zero, remove all instances of the element from the list.
